@@ -169,8 +169,11 @@ def ref_time(rng, lo=1970, hi=2100):
         while not (y % 4 == 0 and (y % 100 != 0 or y % 400 == 0)):
             y = rng.randint(lo, hi)
         d = datetime(y, 2, rng.choice([28, 29]))
-    elif kind < 0.3:
+    elif kind < 0.24:
         d = datetime(y, 12, 31)
+    elif kind < 0.3:
+        # the days whose ISO week belongs to the neighbouring year
+        d = datetime(y, 12, 29) + timedelta(days=rng.randint(0, 5))
     elif kind < 0.45:
         m = rng.randint(1, 12)
         d = datetime(y, m, 1) - timedelta(days=1) if (m > 1 or y > lo) else datetime(y, 1, 31)
